@@ -179,6 +179,11 @@ func genCase(t *rapid.T) ax.Case {
 	if c.Affine() {
 		c.GapOpen = rapid.IntRange(-6, 0).Draw(t, "open")
 	}
+	if len(c.R) <= 40 && len(c.Q) <= 40 && rapid.IntRange(0, 14).Draw(t, "large-scores") == 9 {
+		// scores of magnitude 2^20 .. 2^31: sums leave the 32-bit range, stay below 2^40
+		c.Mat.Scale = rapid.SampledFrom([]int{1 << 20, 1 << 28, 1 << 30, 1<<31 - 1}).Draw(t, "scale")
+		c.GapOpen *= c.Mat.Scale
+	}
 	ax.GenUsage(t, &c, pool, func(t *rapid.T) ax.MatSpec { return genMat(t, false) })
 	return c
 }
@@ -194,6 +199,9 @@ func classes(c ax.Case) []string {
 	l = append(l, c.UsageClasses()...)
 	if (len(c.R)+1)*(len(c.Q)+1) >= 65536 {
 		l = append(l, "table>=65536-cells")
+	}
+	if c.Mat.Scale > 1 {
+		l = append(l, "scores-beyond-32-bits")
 	}
 	return l
 }
